@@ -450,7 +450,55 @@ def check_quit(program, rep):
               else q.node.lineno)
 
 
+def check_default_binding(program, rep, rule='C14.quit',
+                          fnames=('quit_loop',)):
+    """The loop whose current world is the default target is the one the
+    package attribute `desper.default_loop` names WHEN THE FUNCTION IS CALLED
+    (an application installs its own loop by assigning that attribute).  A
+    function that reads a module-level `default_loop` of its own module - a
+    second name for the object created at import time - keeps talking to the
+    old loop after such an assignment."""
+    for fname in fnames:
+        try:
+            f = program.func('desper.loop', fname)
+        except AnalysisError:
+            continue
+        reads = [n for n in ast.walk(f.node) if isinstance(n, ast.Attribute)
+                 and n.attr in ('current_world', 'current_world_handle')]
+        n_ok = 0
+        for r in reads:
+            base = r.value
+            if isinstance(base, ast.Attribute) and base.attr == 'default_loop' \
+                    and isinstance(base.value, ast.Name):
+                imp = f.module.imports.get(base.value.id)
+                if imp == ('module', 'desper'):
+                    n_ok += 1
+                    continue
+            if isinstance(base, ast.Name) and base.id == 'default_loop':
+                own = any(isinstance(s, (ast.Assign, ast.AnnAssign)) and any(
+                    isinstance(t, ast.Name) and t.id == 'default_loop'
+                    for t in (s.targets if isinstance(s, ast.Assign)
+                              else [s.target])) for s in f.module.tree.body)
+                imp = f.module.imports.get('default_loop')
+                if own or (imp and imp[0] == 'name'):
+                    rep.bad(rule, f.where, r,
+                            f'{fname}() reads the module-level name '
+                            '`default_loop` (bound once, at import) instead '
+                            'of the package attribute desper.default_loop at '
+                            'call time: after an application installs its '
+                            'own default loop the function still looks at '
+                            'the old one - no current world is found, '
+                            'on_quit / on_switch_out are not delivered',
+                            line=r.lineno)
+        if n_ok:
+            rep.ok(rule, f.where, 'desper.default_loop.current_world',
+                   'the default loop is looked up through the package '
+                   'attribute at call time', nontrivial=False,
+                   line=f.node.lineno)
+
+
 def run(program, rep, tier):
+    check_default_binding(program, rep)
     check_dt(program, rep)
     check_reset(program, rep)
     check_writers(program, rep)
